@@ -155,16 +155,14 @@ func NewTree() *BPTree {
 	return &BPTree{LastAddress: 0, keyPosMap: make(map[string]int64), enabledKeyPosMap: false}
 }
 
-var queue *Node
-
-func enqueue(node *Node) {
+func enqueue(queue **Node, node *Node) {
 	var c *Node
 
-	if queue == nil {
-		queue = node
-		queue.Next = nil
+	if *queue == nil {
+		*queue = node
+		(*queue).Next = nil
 	} else {
-		c = queue
+		c = *queue
 		for c.Next != nil {
 			c = c.Next
 		}
@@ -173,9 +171,9 @@ func enqueue(node *Node) {
 	}
 }
 
-func dequeue() *Node {
-	n := queue
-	queue = queue.Next
+func dequeue(queue **Node) *Node {
+	n := *queue
+	*queue = (*queue).Next
 
 	return n
 }
@@ -324,12 +322,14 @@ func (t *BPTree) WriteNodes(rwMode RWMode, syncEnable bool, flag int) error {
 		return err
 	}
 
-	queue = nil
+	// the breadth-first queue is local to this call: a package-level queue was shared by every
+	// database in the process
+	var queue *Node
 
-	enqueue(t.root)
+	enqueue(&queue, t.root)
 
 	for queue != nil {
-		n = dequeue()
+		n = dequeue(&queue)
 
 		_, err := t.WriteNode(n, -1, syncEnable, fd)
 		if err != nil {
@@ -340,7 +340,7 @@ func (t *BPTree) WriteNodes(rwMode RWMode, syncEnable bool, flag int) error {
 			if !n.isLeaf {
 				for i = 0; i <= n.KeysNum; i++ {
 					c, _ := n.pointers[i].(*Node)
-					enqueue(c)
+					enqueue(&queue, c)
 				}
 			}
 		}
